@@ -5,7 +5,12 @@ does-not-apply | demo-fails (the change's own demonstration says the property is
 usage: tools/benignall.py [PROP | PROP-name ...]"""
 import json, os, pathlib, subprocess, sys
 V = pathlib.Path(__file__).resolve().parent.parent
-only = set(sys.argv[1:])
+args = sys.argv[1:]
+extra = []
+if "--props" in args:          # tools/benignall.py NAME --props C02 C04 : run these checks (instead of the change's own property) on the change
+    i = args.index("--props")
+    extra, args = args[i + 1:], args[:i]
+only = set(args)
 head = subprocess.check_output(["git", "-C", "/repo", "log", "--format=%h", "-1"], text=True).strip()
 for d in sorted((V / "benign").iterdir()):
     if not (d / "patch.diff").exists():
@@ -29,11 +34,16 @@ for d in sorted((V / "benign").iterdir()):
             if demo not in (0, None):
                 res = "demo-fails"
             else:
-                p = subprocess.run(["./check", prop, "--tier", "quick"], cwd=str(V), env=dict(os.environ, VERIF_REPO=wt), capture_output=True, text=True, timeout=3600)
-                lines = [ln.strip()[:300] for ln in p.stdout.splitlines() if "clause/signature:" in ln or ln.startswith(("MACHINERY", "NOTE model-drift"))][:8]
-                res = "silent" if p.returncode == 0 and "VIOLATION" not in p.stdout else "false-alarm" if p.returncode == 1 or "VIOLATION" in p.stdout else "machinery-failure"
-                if res != "silent":
-                    (pathlib.Path("/tmp/st") / (d.name + ".benign.log")).write_text(p.stdout[-20000:] + p.stderr[-5000:])
+                results = {}
+                for q in (extra or [prop]):
+                    p = subprocess.run(["./check", q, "--tier", "quick"], cwd=str(V), env=dict(os.environ, VERIF_REPO=wt), capture_output=True, text=True, timeout=3600)
+                    lines += [q + ": " + ln.strip()[:300] for ln in p.stdout.splitlines() if "clause/signature:" in ln or ln.startswith(("MACHINERY", "NOTE model-drift"))][:8]
+                    results[q] = "silent" if p.returncode == 0 and "VIOLATION" not in p.stdout else "false-alarm" if p.returncode == 1 or "VIOLATION" in p.stdout else "machinery-failure"
+                    if results[q] != "silent":
+                        (pathlib.Path("/tmp/st") / (d.name + "." + q + ".benign.log")).write_text(p.stdout[-20000:] + p.stderr[-5000:])
+                meta.setdefault("check_results", {}).update(results)
+                res = results.get(prop) or meta.get("check_result")
+                print("   ", d.name, results, flush=True)
     finally:
         subprocess.run(["git", "-C", "/repo", "worktree", "remove", "--force", wt], capture_output=True)
     meta.update(check_result=res, check_lines=lines, checked_at_repo=head)
